@@ -39,6 +39,7 @@ type c03Obs struct {
 	deadline            bool
 	steps               int
 	virtual             time.Duration
+	quorum              int
 }
 
 func c03Run(t *testing.T, r *vfRand, c *lkCase, w *wWorld, op int, withDeadline bool) *c03Obs {
@@ -98,6 +99,10 @@ func c03Run(t *testing.T, r *vfRand, c *lkCase, w *wWorld, op int, withDeadline 
 	defer cancel()
 	key := "/v/" + c.key
 	target := w.peers[r.Intn(len(w.peers))].id
+	// the quorum of value lookups: 0 (the default: never stops early) or a small count that the
+	// diverging records of the scripted network reach while requests are still in flight
+	quorum := []int{0, 0, 1, 2, 3, 5}[r.Intn(6)]
+	o.quorum = quorum
 	start := time.Now()
 	o.chClosed = true
 	var tCancel, tEnd time.Time
@@ -115,10 +120,10 @@ func c03Run(t *testing.T, r *vfRand, c *lkCase, w *wWorld, op int, withDeadline 
 		case "FindPeer":
 			_, err = d.FindPeer(ctx, target)
 		case "GetValue":
-			_, err = d.GetValue(ctx, key)
+			_, err = d.GetValue(ctx, key, Quorum(quorum))
 		case "SearchValue":
 			var ch <-chan []byte
-			ch, err = d.SearchValue(ctx, key)
+			ch, err = d.SearchValue(ctx, key, Quorum(quorum))
 			if err == nil {
 				o.chClosed = false
 				for range ch {
@@ -290,7 +295,7 @@ func TestVerifC03(t *testing.T) {
 			}
 		}
 		desc := map[string]any{"case": i, "seed": seed, "op": c03Ops[op], "K": c.k, "alpha": c.alpha, "beta": c.beta, "npeers": len(c.peers),
-			"failing": nfail, "slow": nslow, "cancelAt": c.cancelAt, "deadline": withDeadline, "strategy": c.strategy, "returned": o.returned,
+			"failing": nfail, "slow": nslow, "cancelAt": c.cancelAt, "deadline": withDeadline, "quorum": o.quorum, "strategy": c.strategy, "returned": o.returned,
 			"panic": o.panicked, "leak": o.leak, "err": o.err, "steps": o.steps, "virtual_s": o.virtual.Seconds(),
 			"after_cancel_s": o.afterCancel.Seconds(), "scenario": scenario, "add_provider_total": o.addProvTotal, "add_provider_before_return": o.addProvBeforeReturn, "optimistic": o.optimistic}
 		sig := fmt.Sprintf("%s|c%v d%v|f%d s%d|opt%v|n%d", c03Ops[op], o.cancelled, withDeadline, minInt(nfail, 3), minInt(nslow, 2), o.optimistic, o.addProvTotal/4)
